@@ -254,7 +254,7 @@ Lemma no_leftover_refuted c : fix_d9 c = false -> exists ls s,
   run c init ls = Some s /\ stream_returned s = true /\ (exists e, rd s = RHold e) /\
   reader_gone s = false /\ cl s = CInError /\ cancelled s = false /\ quiescent c s.
 Proof.
-  intros Hf. destruct c as [a b w]; cbn in Hf; subst a.
+  intros Hf. destruct c as [a b w k]; cbn in Hf; subst a.
   exists sched_d9. eexists. split; [vm_compute; reflexivity|].
   repeat split; try reflexivity; [eexists; reflexivity | apply quiescentb_quiescent; vm_compute; reflexivity].
 Qed.
@@ -287,7 +287,7 @@ Proof.
     - inversion H; subst; auto.
     - destruct (step c s1 l) eqn:E; [|discriminate].
       eapply IH; [|exact H]. exact (error_blocks_for_ever c s1 l _ Hf A B C E). }
-  destruct c as [a b w]; cbn in Hf; subst b.
+  destruct c as [a b w k]; cbn in Hf; subst b.
   exists sched_d10. eexists. split; [vm_compute; reflexivity|].
   repeat split; try reflexivity.
   intros ls' s' H. eapply G; [|exact H]. repeat split; reflexivity.
